@@ -212,6 +212,26 @@ def cmp_true_set_lt256(g, param):
            (rp == param and ((op == "Gt" and lv == 256) or (op == "Ge" and lv == 255)))
 
 
+def guard_conjuncts(g):
+    g = lib.strip(g)
+    if g.get("k") == "binary" and g.get("op") == "And":
+        return guard_conjuncts(g["l"]) + guard_conjuncts(g["r"])
+    return [g]
+
+
+def mentions_nonneg(g, param):
+    """does the expression contain the test `param >= 0` (or `param > -1`, `0 <= param`)?"""
+    for n in lib.hwalk(g):
+        if n.get("k") != "binary":
+            continue
+        l, r = lib.strip(n["l"]), lib.strip(n["r"])
+        lp, rp, lv, rv = lib.hpath(l), lib.hpath(r), lib.hlit(l), lib.hlit(r)
+        if (lp == param and ((n["op"] == "Ge" and rv == 0) or (n["op"] == "Gt" and rv == -1))) or \
+                (rp == param and ((n["op"] == "Le" and lv == 0) or (n["op"] == "Lt" and lv == -1))):
+            return True
+    return False
+
+
 def r12(ctx, fx, fn):
     rid = ctx.rule("R1.2", "size selection: candidate length 0 → opcode only; length 1 → taken iff operand < 256, operand byte = operand as u8; "
                    "length 2 → unguarded, operand bytes = (operand as u16).to_le_bytes() in order [0],[1]; no candidate fits → Err")
@@ -286,9 +306,17 @@ def r12(ctx, fx, fn):
     if 1 in seen:
         a = seen[1]
         ctx.inst(rid, k + "|len1-guard", sample={"guard": "operand < 256", "line": a.get("ln")})
-        if a.get("guard") is None or not cmp_true_set_lt256(a["guard"], opn):
-            ctx.finding(rid, k + "|len1-guard", "the one-byte (zero page / immediate / relative) candidate must be taken exactly when operand < 256; "
+        conj = guard_conjuncts(a["guard"]) if a.get("guard") is not None else []
+        if not any(cmp_true_set_lt256(c, opn) for c in conj):
+            ctx.finding(rid, k + "|len1-guard", "the one-byte (zero page / immediate / relative) candidate must only be taken when operand < 256; "
                         "guard is absent or has a different true-set", "%s:%s" % (fn.file, a.get("ln")))
+        ctx.inst(rid, k + "|len1-nonnegative")
+        others = [c for c in conj if not cmp_true_set_lt256(c, opn)]
+        if not any(mentions_nonneg(c, opn) for c in others):
+            ctx.finding(rid, k + "|len1-nonnegative", "a negative operand selects the zero-page form where an absolute form exists (`operand < 256` alone also holds "
+                        "for -1): `sta -1` assembles to `85 FF` — the zero page — instead of `8D FF FF`", "%s:%s" % (fn.file, a.get("ln")))
+        elif len(others) != 1:
+            ctx.finding(rid, k + "|len1-guard|extra", "the one-byte candidate is guarded by conditions beyond `operand < 256` and the sign test", "%s:%s" % (fn.file, a.get("ln")))
         ctx.inst(rid, k + "|len1-bytes")
         es = ok_ret(a)
         if es is None or [descr(e) for e in es] != [("var", opcode_name), ("cast", "u8", ("var", opn))]:
